@@ -99,6 +99,11 @@ var httpPool = []string{"http://h.test/x/f.json", "http://h.test/x/y/i.json", "h
 	// same path on another host / port / scheme
 	"http://h2.test/x/f.json", "http://h.test:8081/x/f.json", "https://h.test/x/f.json"}
 
+// Remote documents selected by a query (http://h/models?name=a) are deliberately NOT generated:
+// the library propagates the query of the containing document to relative references (pinned by
+// its own normalizer tests: "params in base"), which is not RFC 3986 resolution, and none of the
+// properties quantifies over queries on http locations.
+
 var oddNames = []string{"a/b", "t~x", "sp ace", "p%q", "é", "q?r", "h#s", "{br}", "q\"t", "b\\s", "~1", "%41", "a+b", "x=y&z"}
 
 type target struct {
@@ -172,6 +177,9 @@ func (g *gen) refString(from string, t target) string {
 		default:
 			return t.url + frag
 		}
+	}
+	if tu.Scheme == "file" && sp == 2 && x >= 94 {
+		return t.url + "?rev=2" + frag // a query on a file URL is irrelevant
 	}
 	if fu.Scheme == tu.Scheme && fu.Host == tu.Host {
 		rel := (&url.URL{Path: RelPath(fu, tu)}).String()
@@ -452,6 +460,30 @@ func Generate(r *sim.RNG, cfg Cfg) *model.World {
 			s.defs = append(s.defs, n)
 			add(model.KSchema, u, "/definitions/"+model.Esc(n))
 		}
+		if cfg.OddNames && r.Intn(3) == 0 {
+			// a twin whose NAME is the escaped spelling of another name: "a~1b" next to "a/b",
+			// "sp%20ace" next to "sp ace", "A/properties/x" (a name that looks like a nested pointer)
+			base := s.defs[r.Intn(len(s.defs))]
+			var n string
+			switch r.Intn(3) {
+			case 0:
+				n = strings.ReplaceAll(strings.ReplaceAll(base, "~", "~0"), "/", "~1")
+			case 1:
+				n = strings.ReplaceAll(base, " ", "%20")
+			default:
+				n = base + "/properties/p0"
+			}
+			dup := n == base
+			for _, x := range s.defs {
+				if x == n {
+					dup = true
+				}
+			}
+			if !dup {
+				s.defs = append(s.defs, n)
+				add(model.KSchema, u, "/definitions/"+model.Esc(n))
+			}
+		}
 		if cfg.CaseTwins && r.Intn(2) == 0 {
 			n := swapCase(s.defs[r.Intn(len(s.defs))])
 			dup := false
@@ -656,7 +688,7 @@ func isSchemaPtr(p string) bool {
 // ID kinds (DESIGN.md C04).
 var idSafe = []string{"http://ids.test/schemas/s%d.json", "other%d.json", "#frag%d", "file:///w/ids/abs%d.json", "../up/", "/abs/dir/", "http://ids.test/dir%d/",
 	"http://Ids.Test/Upper%d.json", "http://ids.test:80/port%d.json", "HTTP://ids.test/scheme%d.json"}
-var idAll = append(append([]string{}, idSafe...), "sub/", "deeper/dir/", "sub/f%d.json")
+var idAll = append(append([]string{}, idSafe...), "sub/", "deeper/dir/", "sub/f%d.json", "#50%", "#a b", "%zz", "http://[bad")
 
 func (g *gen) addIDs(w *model.World) {
 	pool := idSafe
